@@ -9,6 +9,9 @@ Inductive case :=
 | CInst (fixed : bool) (v : client_view) (ks : kshape) (specmin : N) (w : wire_view)
 | CRun (fixed : bool) (v : client_view) (ks : kshape) (specmin : N) (w : wire_view) (fl : flight) (o : observed)
 | CRunX (fixed : bool) (v : client_view) (ks : kshape) (specmin : N) (w : wire_view) (fl : flight) (o : observed)
+(* as CRun, for a flight that also carries a CertificateRequest; nocert = the handshake completed and the server saw no
+   client certificate (an empty Certificate message) *)
+| CRunQ (nocert fixed : bool) (v : client_view) (ks : kshape) (specmin : N) (w : wire_view) (fl : flight) (o : observed)
 (* one application-data Write on a completed connection: negotiated version, CBC suite?, len(b), reported n, err == nil *)
 | CWrite (vers : N) (cbc : bool) (len n : N) (ok : bool).
 
@@ -21,5 +24,9 @@ Definition check (c : case) : bool :=
   | CRunX fixed v ks m w fl o =>
       compliant env_fixed m w fl && matches (client_run10 fixed env_fixed v ks fl) o
       && negb (c10_cond fixed env_fixed v ks m w fl) && negb (o_complete o)
+  | CRunQ nocert fixed v ks m w fl o =>
+      synced v w && compliant env_fixed m w fl && matches (client_run10q fixed env_fixed v ks fl true) o
+      && implb (c10_cond fixed env_fixed v ks m w fl) (o_complete o)
+      && implb (o_complete o) (nocert && match client_cert_reply true with Some 0 => true | _ => false end)
   | CWrite vers cbc len n ok => ok && (n =? uconn_write vers cbc len)
   end.
